@@ -137,32 +137,45 @@ func stripBang(n *sx_) *sx_ {
 	return n
 }
 
-// singleIntBinder returns the variable of (forall ((v Int)) body).
-func singleIntBinder(n *sx_) (string, *sx_, bool) {
+// singleBinder returns the variable and sort of (forall ((v S)) body) for S in {Int, Str}.
+func singleBinder(n *sx_) (string, string, *sx_, bool) {
 	if n.head() != "forall" || len(n.kids) != 3 {
-		return "", nil, false
+		return "", "", nil, false
 	}
 	bs := n.kids[1].kids
-	if len(bs) != 1 || len(bs[0].kids) != 2 || bs[0].kids[1].atom != "Int" {
-		return "", nil, false
+	if len(bs) != 1 || len(bs[0].kids) != 2 {
+		return "", "", nil, false
 	}
-	return bs[0].kids[0].atom, stripBang(n.kids[2]), true
+	sort := bs[0].kids[1].atom
+	if sort != "Int" && sort != "Str" {
+		return "", "", nil, false
+	}
+	return bs[0].kids[0].atom, sort, stripBang(n.kids[2]), true
 }
 
 // skolemize replaces positive single-variable Int foralls of a goal by fresh constants.
-func skolemize(n *sx_, positive bool, fresh func() string, decls *[]string) *sx_ {
+func skolemize(n *sx_, positive bool, fresh func(sort string) string, decls *[]string) *sx_ {
 	if !n.isList() {
 		return n
 	}
 	switch n.head() {
 	case "forall":
-		if v, body, ok := singleIntBinder(n); ok && positive {
-			sk := fresh()
+		if v, sort, body, ok := singleBinder(n); ok && positive {
+			sk := fresh(sort)
 			*decls = append(*decls, sk)
 			return skolemize(substAtom(body, v, &sx_{atom: sk}), positive, fresh, decls)
 		}
 		return n
 	case "exists":
+		// a negative existential is a universal: skolemise it as well
+		if len(n.kids) == 3 && !positive {
+			bs := n.kids[1].kids
+			if len(bs) == 1 && len(bs[0].kids) == 2 && (bs[0].kids[1].atom == "Int" || bs[0].kids[1].atom == "Str") {
+				sk := fresh(bs[0].kids[1].atom)
+				*decls = append(*decls, sk)
+				return skolemize(substAtom(stripBang(n.kids[2]), bs[0].kids[0].atom, &sx_{atom: sk}), positive, fresh, decls)
+			}
+		}
 		return n
 	case "and", "or":
 		out := &sx_{kids: []*sx_{n.kids[0]}}
@@ -184,16 +197,16 @@ func skolemize(n *sx_, positive bool, fresh func() string, decls *[]string) *sx_
 
 // instantiate weakens positive single-variable Int foralls into finite conjunctions over cands.
 // Returns nil when the formula contains no such quantifier.
-func instantiate(n *sx_, positive bool, cands []*sx_, did *bool) *sx_ {
+func instantiate(n *sx_, positive bool, cands map[string][]*sx_, did *bool) *sx_ {
 	if !n.isList() {
 		return n
 	}
 	switch n.head() {
 	case "forall":
-		if v, body, ok := singleIntBinder(n); ok && positive {
+		if v, sort, body, ok := singleBinder(n); ok && positive {
 			*did = true
 			out := &sx_{kids: []*sx_{{atom: "and"}, {atom: "true"}}}
-			for _, c := range cands {
+			for _, c := range cands[sort] {
 				inst := substAtom(body, v, c)
 				// nested quantifiers inside the instance are left as they are
 				out.kids = append(out.kids, inst)
@@ -248,9 +261,36 @@ func hasBinder(n *sx_) bool {
 	return false
 }
 
-// indexTerms collects the index arguments of (select (select H r) IDX) and (select A IDX)
-// that mention one of the given constants.
-func indexTerms(n *sx_, names map[string]bool, out map[string]*sx_) {
+// arrayIndexSort returns the index sort of the array term a, if it can be determined from
+// the declared sorts of heap symbols.
+func arrayIndexSort(a *sx_, sorts map[string]string) string {
+	if !a.isList() {
+		if st, ok := sorts[a.atom]; ok {
+			if t := parseSexpr(st); t != nil && t.head() == "Array" && len(t.kids) == 3 {
+				return t.kids[1].String()
+			}
+		}
+		return ""
+	}
+	if a.head() == "select" && len(a.kids) == 3 && !a.kids[1].isList() {
+		if st, ok := sorts[a.kids[1].atom]; ok {
+			if t := parseSexpr(st); t != nil && t.head() == "Array" && len(t.kids) == 3 {
+				if e := t.kids[2]; e.head() == "Array" && len(e.kids) == 3 {
+					return e.kids[1].String()
+				}
+			}
+		}
+		return ""
+	}
+	if a.head() == "store" && len(a.kids) == 4 {
+		return arrayIndexSort(a.kids[1], sorts)
+	}
+	return ""
+}
+
+// indexTerms collects the index arguments of select terms that mention one of the given
+// constants, grouped by sort (Int when unknown and the term looks arithmetic).
+func indexTerms(n *sx_, names map[string]bool, sorts map[string]string, out map[string]map[string]*sx_) {
 	if !n.isList() {
 		return
 	}
@@ -262,26 +302,121 @@ func indexTerms(n *sx_, names map[string]bool, out map[string]*sx_) {
 		if mentionsAny(idx, names) && !hasBinder(idx) {
 			s := idx.String()
 			if len(s) < 400 {
-				out[s] = idx
+				sort := arrayIndexSort(n.kids[1], sorts)
+				if sort == "" {
+					// unknown array: accept the term as an Int index only if every constant of
+					// interest it mentions is an Int
+					sort = "Int"
+					for nm := range names {
+						if sorts[nm] != "Int" && mentionsAny(idx, map[string]bool{nm: true}) {
+							sort = ""
+						}
+					}
+				}
+				if sort == "Int" || sort == "Str" {
+					if out[sort] == nil {
+						out[sort] = map[string]*sx_{}
+					}
+					out[sort][s] = idx
+				}
 			}
 		}
 	}
 	for _, k := range n.kids {
-		indexTerms(k, names, out)
+		indexTerms(k, names, sorts, out)
 	}
 }
 
+// skolemizeExists replaces positive single-binder existentials that are not under another
+// binder by fresh constants (valid for asserted, already ground-instantiated hypotheses).
+func skolemizeExists(n *sx_, positive bool, fresh func(sort string) string) *sx_ {
+	if !n.isList() {
+		return n
+	}
+	switch n.head() {
+	case "exists":
+		if len(n.kids) == 3 && positive {
+			bs := n.kids[1].kids
+			if len(bs) == 1 && len(bs[0].kids) == 2 && (bs[0].kids[1].atom == "Int" || bs[0].kids[1].atom == "Str") {
+				sk := fresh(bs[0].kids[1].atom)
+				return skolemizeExists(substAtom(stripBang(n.kids[2]), bs[0].kids[0].atom, &sx_{atom: sk}), positive, fresh)
+			}
+		}
+		return n
+	case "forall":
+		return n
+	case "and", "or":
+		out := &sx_{kids: []*sx_{n.kids[0]}}
+		for _, k := range n.kids[1:] {
+			out.kids = append(out.kids, skolemizeExists(k, positive, fresh))
+		}
+		return out
+	case "not":
+		if len(n.kids) == 2 {
+			return &sx_{kids: []*sx_{n.kids[0], skolemizeExists(n.kids[1], !positive, fresh)}}
+		}
+	case "=>":
+		if len(n.kids) == 3 {
+			return &sx_{kids: []*sx_{n.kids[0], skolemizeExists(n.kids[1], !positive, fresh), skolemizeExists(n.kids[2], positive, fresh)}}
+		}
+	}
+	return n
+}
+
+// expandExists adds ground instances to the positive existentials of a goal:
+// (exists x. B) becomes (or (exists x. B) B[c1] B[c2] ...), which is equivalent.
+func expandExists(n *sx_, positive bool, cands map[string][]*sx_) *sx_ {
+	if !n.isList() {
+		return n
+	}
+	switch n.head() {
+	case "exists":
+		if len(n.kids) == 3 && positive {
+			bs := n.kids[1].kids
+			if len(bs) == 1 && len(bs[0].kids) == 2 {
+				sort := bs[0].kids[1].atom
+				out := &sx_{kids: []*sx_{{atom: "or"}, n}}
+				for _, c := range cands[sort] {
+					out.kids = append(out.kids, substAtom(stripBang(n.kids[2]), bs[0].kids[0].atom, c))
+				}
+				return out
+			}
+		}
+		return n
+	case "forall":
+		return n
+	case "and", "or":
+		out := &sx_{kids: []*sx_{n.kids[0]}}
+		for _, k := range n.kids[1:] {
+			out.kids = append(out.kids, expandExists(k, positive, cands))
+		}
+		return out
+	case "not":
+		if len(n.kids) == 2 {
+			return &sx_{kids: []*sx_{n.kids[0], expandExists(n.kids[1], !positive, cands)}}
+		}
+	case "=>":
+		if len(n.kids) == 3 {
+			return &sx_{kids: []*sx_{n.kids[0], expandExists(n.kids[1], !positive, cands), expandExists(n.kids[2], positive, cands)}}
+		}
+	}
+	return n
+}
+
 // preInstantiate returns (declarations, extra assertion lines, rewritten negated goal).
-func preInstantiate(lines []string, pc, goal string, nameHint int) (decls []string, extra []string, negGoal string) {
+func preInstantiate(lines []string, pc, goal string, nameHint int, baseSorts map[string]string) (decls []string, extra []string, negGoal string) {
 	g := parseSexpr(goal)
 	if g == nil {
 		return nil, nil, sx("assert", not(goal))
 	}
 	n := 0
+	skSort := map[string]string{}
 	var sks []string
-	fresh := func() string {
+	fresh := func(sort string) string {
 		n++
-		return fmt.Sprintf("sk!%d_%d", nameHint, n)
+		name := fmt.Sprintf("sk!%d_%d", nameHint, n)
+		skSort[name] = sort
+		return name
 	}
 	g2 := skolemize(g, true, fresh, &sks)
 	negGoal = "(assert (not " + g2.String() + "))"
@@ -289,20 +424,39 @@ func preInstantiate(lines []string, pc, goal string, nameHint int) (decls []stri
 		return nil, nil, negGoal
 	}
 	for _, s := range sks {
-		decls = append(decls, fmt.Sprintf("(declare-const %s Int)", s))
+		decls = append(decls, fmt.Sprintf("(declare-const %s %s)", s, skSort[s]))
+	}
+	if lines == nil {
+		return decls, nil, negGoal
+	}
+	sorts := map[string]string{}
+	for k, v := range baseSorts {
+		sorts[k] = v
+	}
+	for k, v := range skSort {
+		sorts[k] = v
+	}
+	for _, l := range lines {
+		if strings.HasPrefix(l, "(declare-const ") {
+			rest := l[len("(declare-const ") : len(l)-1]
+			if i := strings.Index(rest, " "); i > 0 {
+				sorts[rest[:i]] = rest[i+1:]
+			}
+		}
 	}
 	names := map[string]bool{}
 	for _, s := range sks {
 		names[s] = true
 	}
-	cands := map[string]*sx_{}
+	cands := map[string]map[string]*sx_{}
 	for _, s := range sks {
-		cands[s] = &sx_{atom: s}
+		if cands[skSort[s]] == nil {
+			cands[skSort[s]] = map[string]*sx_{}
+		}
+		cands[skSort[s]][s] = &sx_{atom: s}
 	}
-	indexTerms(g2, names, cands)
-	// parse quantified hypothesis lines once
-	type hyp struct{ tree *sx_ }
-	var hyps []hyp
+	indexTerms(g2, names, sorts, cands)
+	var hyps []*sx_
 	for _, l := range lines {
 		if !strings.HasPrefix(l, "(assert") || !strings.Contains(l, "(forall ((") {
 			continue
@@ -311,38 +465,56 @@ func preInstantiate(lines []string, pc, goal string, nameHint int) (decls []stri
 		if t == nil || len(t.kids) != 2 {
 			continue
 		}
-		hyps = append(hyps, hyp{tree: t.kids[1]})
+		hyps = append(hyps, t.kids[1])
 	}
 	seenInst := map[string]bool{}
 	done := map[string]bool{}
-	for round := 0; round < 2 && len(cands) > 0; round++ {
-		var keys []string
-		for k := range cands {
-			if !done[k] {
-				keys = append(keys, k)
+	all := map[string][]*sx_{}
+	wn := 0
+	var wdecls []string
+	var roundWit map[string]map[string]*sx_
+	freshW := func(sort string) string {
+		wn++
+		name := fmt.Sprintf("wit!%d_%d", nameHint, wn)
+		wdecls = append(wdecls, fmt.Sprintf("(declare-const %s %s)", name, sort))
+		names[name] = true
+		sorts[name] = sort
+		if roundWit[sort] == nil {
+			roundWit[sort] = map[string]*sx_{}
+		}
+		roundWit[sort][name] = &sx_{atom: name}
+		return name
+	}
+	for round := 0; round < 2; round++ {
+		cs := map[string][]*sx_{}
+		total := 0
+		for sort, m := range cands {
+			var keys []string
+			for k := range m {
+				if !done[sort+"|"+k] {
+					keys = append(keys, k)
+				}
+			}
+			sort2 := sort
+			sortKeys(keys)
+			if len(keys) > 10 {
+				keys = keys[:10]
+			}
+			for _, k := range keys {
+				cs[sort2] = append(cs[sort2], m[k])
+				all[sort2] = append(all[sort2], m[k])
+				done[sort2+"|"+k] = true
+				total++
 			}
 		}
-		sort.Slice(keys, func(i, j int) bool {
-			if len(keys[i]) != len(keys[j]) {
-				return len(keys[i]) < len(keys[j])
-			}
-			return keys[i] < keys[j]
-		})
-		if len(keys) > 10 {
-			keys = keys[:10]
-		}
-		var cs []*sx_
-		for _, k := range keys {
-			cs = append(cs, cands[k])
-			done[k] = true
-		}
-		if len(cs) == 0 {
+		if total == 0 {
 			break
 		}
-		next := map[string]*sx_{}
+		next := map[string]map[string]*sx_{}
+		roundWit = next
 		for _, h := range hyps {
 			did := false
-			inst := instantiate(h.tree, true, cs, &did)
+			inst := instantiate(h, true, cs, &did)
 			if !did {
 				continue
 			}
@@ -351,13 +523,48 @@ func preInstantiate(lines []string, pc, goal string, nameHint int) (decls []stri
 				continue
 			}
 			seenInst[s] = true
+			inst = skolemizeExists(inst, true, freshW)
+			s = "(assert " + inst.String() + ")"
 			extra = append(extra, s)
-			indexTerms(inst, names, next)
+			indexTerms(inst, names, sorts, next)
 		}
 		cands = next
 		if len(extra) > 400 {
 			break
 		}
 	}
+	// witnesses introduced in the last round are candidates for the goal's existentials too
+	for sort, m := range cands {
+		var keys []string
+		for k := range m {
+			if !done[sort+"|"+k] {
+				keys = append(keys, k)
+			}
+		}
+		sortKeys(keys)
+		if len(keys) > 6 {
+			keys = keys[:6]
+		}
+		for _, k := range keys {
+			all[sort] = append(all[sort], m[k])
+		}
+	}
+	for sort := range all {
+		if len(all[sort]) > 14 {
+			all[sort] = all[sort][:14]
+		}
+	}
+	decls = append(decls, wdecls...)
+	g3 := expandExists(g2, true, all)
+	negGoal = "(assert (not " + g3.String() + "))"
 	return decls, extra, negGoal
+}
+
+func sortKeys(keys []string) {
+	sort.Slice(keys, func(i, j int) bool {
+		if len(keys[i]) != len(keys[j]) {
+			return len(keys[i]) < len(keys[j])
+		}
+		return keys[i] < keys[j]
+	})
 }
